@@ -1,8 +1,11 @@
 import RecipeGrid.Lemmas.Fold
 import RecipeGrid.Props.C07
 import RecipeGrid.Props.C08b
-/-! Helper lemmas for `Props/C07b.lean` (documented outcomes of `compile`) and `Props/C01b.lean` (the inlining pass
-    refines the by-name folding).  Nothing here is a specification. -/
+/-! Helper lemmas for `Props/C07b.lean` (documented outcomes of `compile`: where errors come from, and the bound
+    `Parser.Bd` showing that the parser never records a position beyond the end of the text) and for
+    `Props/C01b.lean` (the inlining pass refines the by-name folding: the `unwrap` flags of the table, `list.remove`
+    on selected roots, `can_be_inlined` in terms of the recorded references, splitting and skipping iterations of
+    `foldAll`, permutation facts).  Nothing here is a specification. -/
 namespace RG
 open C01
 
@@ -218,6 +221,609 @@ theorem compileBlocks_error : ∀ (bs : List (List AStmt)) (i : Nat) (st : CStat
           rw [this]; simpa using hss
         · exact Or.inr hx
       | ok q => rw [h2] at h; cases h
+
+-- ================================================================ Part A: every offset of the AST lies in the source
+end RG
+
+namespace RG.Parser.PosBound
+
+/-- `p`, started inside the text, stays inside the text and returns a value satisfying `Q` -/
+def Bd {α : Type} (t : Array Char) (p : P α) (Q : α → Prop) : Prop :=
+  ∀ s a s', s.pos ≤ t.size → p t s = some (a, s') → s'.pos ≤ t.size ∧ Q a
+
+variable {t : Array Char}
+
+theorem Bd.pure {α : Type} {a : α} {Q : α → Prop} (h : Q a) : Bd t (pure a) Q := by
+  intro s a' s' hs he
+  cases he
+  exact ⟨hs, h⟩
+
+theorem Bd.bind {α β : Type} {p : P α} {f : α → P β} {Q1 : α → Prop} {Q2 : β → Prop} (h1 : Bd t p Q1)
+    (h2 : ∀ a, Q1 a → Bd t (f a) Q2) : Bd t (p >>= f) Q2 := by
+  intro s b s' hs he
+  have he' : (match p t s with | none => none | some (a, s1) => f a t s1) = some (b, s') := he
+  cases hp : p t s with
+  | none => rw [hp] at he'; cases he'
+  | some r =>
+    obtain ⟨a, s1⟩ := r
+    rw [hp] at he'
+    obtain ⟨hs1, hq⟩ := h1 s a s1 hs hp
+    exact h2 a hq s1 b s' hs1 he'
+
+theorem Bd.orElse {α : Type} {p q : P α} {Q : α → Prop} (h1 : Bd t p Q) (h2 : Bd t q Q) : Bd t (p <|> q) Q := by
+  intro s a s' hs he
+  have he' : (match p t s with | some r => some r | none => q t s) = some (a, s') := he
+  cases hp : p t s with
+  | none => rw [hp] at he'; exact h2 s a s' hs he'
+  | some r => rw [hp] at he'; cases he'; exact h1 s a s' hs hp
+
+theorem Bd.mono {α : Type} {p : P α} {Q Q' : α → Prop} (h : Bd t p Q) (hq : ∀ a, Q a → Q' a) : Bd t p Q' :=
+  fun s a s' hs he => ⟨(h s a s' hs he).1, hq a (h s a s' hs he).2⟩
+
+theorem Bd.map {α β : Type} {p : P α} {f : α → β} {Q : β → Prop} (h : Bd t p (fun a => Q (f a))) : Bd t (f <$> p) Q :=
+  Bd.bind h (fun _ ha => Bd.pure ha)
+
+theorem Bd.fail {α : Type} {Q : α → Prop} : Bd t (fail : P α) Q := by
+  intro s a s' _ he; cases he
+
+
+abbrev T {α : Type} : α → Prop := fun _ => True
+
+theorem sat_bd (p : Char → Bool) : Bd t (sat p) T := by
+  intro s a s' hs he
+  unfold sat at he
+  cases hc : t[s.pos]? with
+  | none => rw [hc] at he; cases he
+  | some c =>
+    have hlt : s.pos < t.size := by
+      apply Classical.byContradiction
+      intro h
+      rw [Array.getElem?_eq_none (by omega)] at hc
+      cases hc
+    rw [hc] at he
+    simp only at he
+    split at he
+    · cases he
+      exact ⟨hlt, trivial⟩
+    · cases he
+
+theorem anyChar_bd : Bd t anyChar T := sat_bd _
+theorem lit_bd (c : Char) : Bd t (lit c) T := Bd.bind (sat_bd _) fun _ _ => Bd.pure trivial
+
+theorem spanEnd_go_le (p : Char → Bool) : ∀ (fuel j : Nat), j ≤ t.size → spanEnd.go p t fuel j ≤ t.size
+  | 0, j, h => h
+  | fuel + 1, j, h => by
+    unfold spanEnd.go
+    cases hc : t[j]? with
+    | none => exact h
+    | some c =>
+      simp only
+      split
+      · apply spanEnd_go_le p fuel (j + 1)
+        apply Classical.byContradiction
+        intro h
+        rw [Array.getElem?_eq_none (by omega)] at hc
+        cases hc
+      · exact h
+
+theorem skipMany_bd (p : Char → Bool) : Bd t (skipMany p) T := by
+  intro s a s' hs he
+  unfold skipMany at he
+  cases he
+  exact ⟨spanEnd_go_le p _ _ hs, trivial⟩
+
+theorem skipMany1_bd (p : Char → Bool) : Bd t (skipMany1 p) T :=
+  Bd.bind (sat_bd p) fun _ _ => skipMany_bd p
+
+theorem hsp_bd : Bd t hsp T := skipMany1_bd _
+theorem ohsp_bd : Bd t ohsp T := skipMany_bd _
+theorem sp_bd : Bd t sp T := skipMany1_bd _
+theorem osp_bd : Bd t osp T := skipMany_bd _
+
+theorem eof_bd : Bd t eof T := by
+  intro s a s' hs he
+  unfold eof at he
+  split at he
+  · cases he; exact ⟨hs, trivial⟩
+  · cases he
+
+theorem wordBoundary_bd : Bd t wordBoundary T := by
+  intro s a s' hs he
+  unfold wordBoundary at he
+  split at he
+  · cases he; exact ⟨hs, trivial⟩
+  · cases he
+
+theorem ciWord_bd : ∀ w : Str, Bd t (ciWord w) T
+  | [] => Bd.pure trivial
+  | _ :: ls => Bd.bind (sat_bd _) fun _ _ => ciWord_bd ls
+
+theorem getPos_bd : Bd t getPos (· ≤ t.size) := by
+  intro s a s' hs he
+  cases he
+  exact ⟨hs, hs⟩
+
+theorem remaining_bd : Bd t remaining T := by
+  intro s a s' hs he
+  cases he
+  exact ⟨hs, trivial⟩
+
+theorem manyF_bd {α : Type} {p : P α} {Q : α → Prop} (h : Bd t p Q) : ∀ fuel, Bd t (manyF p fuel) (fun l => ∀ a ∈ l, Q a)
+  | 0 => Bd.pure (by simp)
+  | fuel + 1 => by
+    unfold manyF
+    refine Bd.orElse ?_ (Bd.pure (by simp))
+    refine Bd.bind h fun a ha => ?_
+    refine Bd.bind (manyF_bd h fuel) fun rest hrest => ?_
+    exact Bd.pure (by
+      intro x hx
+      simp only [List.mem_cons] at hx
+      rcases hx with rfl | hx
+      · exact ha
+      · exact hrest x hx)
+
+theorem many_bd {α : Type} {p : P α} {Q : α → Prop} (h : Bd t p Q) : Bd t (many p) (fun l => ∀ a ∈ l, Q a) :=
+  Bd.bind remaining_bd fun fuel _ => manyF_bd h fuel
+
+theorem withText_bd {α : Type} {p : P α} {Q : α → Prop} (h : Bd t p Q) : Bd t (withText p) (fun x => Q x.1) := by
+  intro s a s' hs he
+  unfold withText at he
+  cases hp : p t s with
+  | none => rw [hp] at he; cases he
+  | some r =>
+    obtain ⟨a1, s1⟩ := r
+    rw [hp] at he
+    have := h s a1 s1 hs hp
+    cases he
+    exact this
+
+theorem textOf_bd {p : P Unit} (h : Bd t p T) : Bd t (textOf p) T :=
+  Bd.bind (withText_bd h) fun _ _ => Bd.pure trivial
+
+theorem opt_bd {α : Type} {p : P α} {Q : α → Prop} (h : Bd t p Q) : Bd t (opt p) (fun o => ∀ a, o = some a → Q a) := by
+  unfold opt
+  refine Bd.orElse (Bd.map (h.mono ?_)) (Bd.pure (by simp))
+  intro a ha b hb
+  cases hb
+  exact ha
+
+theorem digits_bd : Bd t digits T := textOf_bd (skipMany1_bd _)
+
+theorem decimal_bd : Bd t decimal (fun x => x.1 ≤ t.size) := by
+  unfold decimal
+  refine Bd.bind getPos_bd fun off hoff => ?_
+  refine Bd.bind digits_bd fun whole _ => ?_
+  refine Bd.bind (opt_bd (Q := T) ?_) fun frac _ => ?_
+  · exact Bd.bind (lit_bd _) fun _ _ => textOf_bd (skipMany_bd _)
+  · cases frac <;> exact Bd.pure hoff
+
+theorem fraction_bd : Bd t fraction (fun x => x.1 ≤ t.size) := by
+  unfold fraction
+  refine Bd.bind getPos_bd fun start hstart => ?_
+  refine Bd.bind (opt_bd (Q := T) ?_) fun integer _ => ?_
+  · exact Bd.bind digits_bd fun _ _ => Bd.bind hsp_bd fun _ _ => Bd.pure trivial
+  refine Bd.bind getPos_bd fun numerStart hns => ?_
+  refine Bd.bind digits_bd fun numer _ => ?_
+  refine Bd.bind ohsp_bd fun _ _ => ?_
+  refine Bd.bind (lit_bd _) fun _ _ => ?_
+  refine Bd.bind ohsp_bd fun _ _ => ?_
+  refine Bd.bind digits_bd fun denom _ => ?_
+  simp only
+  split
+  · exact Bd.fail
+  · refine Bd.pure ?_
+    simp only
+    split <;> assumption
+
+theorem number_bd : Bd t number (fun x => x.1 ≤ t.size) := Bd.orElse fraction_bd decimal_bd
+
+def subOff : SubStr → Nat
+  | .sub o _ => o
+  | .num o _ => o
+
+/-- all offsets of a string lie in the text -/
+def AOk (t : Array Char) (a : AString) : Prop := ∀ x ∈ a, subOff x ≤ t.size
+
+theorem AOk.offset {a : AString} (h : AOk t a) : AString.offset a ≤ t.size := by
+  match a, h with
+  | [], _ => exact Nat.zero_le _
+  | .sub o x :: _, h => exact h (.sub o x) (List.mem_cons_self)
+  | .num o x :: _, h => exact h (.num o x) (List.mem_cons_self)
+
+theorem AOk.append {a b : AString} (ha : AOk t a) (hb : AOk t b) : AOk t (a ++ b) := by
+  intro x hx
+  rw [List.mem_append] at hx
+  rcases hx with hx | hx
+  · exact ha x hx
+  · exact hb x hx
+
+theorem trimBack_le (p : Char → Bool) (lo : Nat) : ∀ k, trimBack p t lo k ≤ max lo k
+  | 0 => by simp [trimBack]
+  | k + 1 => by
+    unfold trimBack
+    split
+    · omega
+    · have := trimBack_le p lo k
+      split
+      · split
+        · omega
+        · omega
+      · omega
+
+theorem nakedString_bd : Bd t nakedString (AOk t) := by
+  unfold nakedString
+  refine Bd.bind getPos_bd fun off hoff => ?_
+  refine Bd.bind (withText_bd (Q := T) ?_) fun x _ => ?_
+  · refine Bd.bind (sat_bd _) fun _ _ => ?_
+    intro s a s' hs he
+    cases he
+    refine ⟨?_, trivial⟩
+    have h1 := trimBack_le (t := t) isNakedEdge s.pos (spanEnd isNakedInner t s.pos)
+    have h2 : spanEnd isNakedInner t s.pos ≤ t.size := spanEnd_go_le _ _ _ hs
+    simp only
+    omega
+  · obtain ⟨_, text⟩ := x
+    refine Bd.pure ?_
+    intro y hy
+    simp only [List.mem_singleton] at hy
+    subst hy
+    exact hoff
+
+theorem escaped_bd : Bd t escaped T :=
+  Bd.bind (lit_bd _) fun _ _ => Bd.bind anyChar_bd fun _ _ => Bd.pure trivial
+
+theorem quotedString_bd (q : Char) : Bd t (quotedString q) (AOk t) := by
+  unfold quotedString
+  refine Bd.bind getPos_bd fun off hoff => ?_
+  refine Bd.bind (lit_bd _) fun _ _ => ?_
+  refine Bd.bind (many_bd (Q := T) (Bd.orElse escaped_bd (sat_bd _))) fun body _ => ?_
+  refine Bd.bind (lit_bd _) fun _ _ => ?_
+  refine Bd.pure ?_
+  intro y hy
+  simp only [List.mem_singleton] at hy
+  subst hy
+  exact hoff
+
+def itemOff : BracketedItem → Nat
+  | .num o _ => o
+  | .chr o _ => o
+
+theorem bracketedItem_bd : Bd t bracketedItem (fun i => itemOff i ≤ t.size) := by
+  unfold bracketedItem
+  refine Bd.orElse ?_ (Bd.orElse ?_ ?_)
+  · refine Bd.bind number_bd fun x hx => ?_
+    obtain ⟨off, n⟩ := x
+    exact Bd.pure hx
+  · refine Bd.bind getPos_bd fun off hoff => ?_
+    exact Bd.bind escaped_bd fun c _ => Bd.pure hoff
+  · refine Bd.bind getPos_bd fun off hoff => ?_
+    exact Bd.bind (sat_bd _) fun c _ => Bd.pure hoff
+
+def AccOk (t : Array Char) (a : BracketedAcc) : Prop :=
+  AOk t a.out ∧ ∀ o, a.segmentOff = some o → o ≤ t.size
+
+theorem AccOk.push {a : BracketedAcc} (h : AccOk t a) {i : BracketedItem} (hi : itemOff i ≤ t.size) : AccOk t (a.push i) := by
+  obtain ⟨h1, h2⟩ := h
+  cases i with
+  | num off n =>
+    simp only [BracketedAcc.push]
+    refine ⟨?_, by simp⟩
+    apply AOk.append
+    · split
+      · exact h1
+      · apply AOk.append h1
+        intro y hy
+        simp only [List.mem_singleton] at hy
+        subst hy
+        cases hs : a.segmentOff with
+        | none => exact Nat.zero_le _
+        | some o => exact h2 o hs
+    · intro y hy
+      simp only [List.mem_singleton] at hy
+      subst hy
+      exact hi
+  | chr off c =>
+    simp only [BracketedAcc.push]
+    refine ⟨h1, ?_⟩
+    intro o ho
+    simp only [Option.some.injEq] at ho
+    subst ho
+    cases hs : a.segmentOff with
+    | none => exact hi
+    | some o => exact h2 o hs
+
+theorem AccOk.foldl : ∀ (body : List BracketedItem) (a : BracketedAcc), AccOk t a → (∀ i ∈ body, itemOff i ≤ t.size) →
+    AccOk t (body.foldl BracketedAcc.push a)
+  | [], a, h, _ => h
+  | i :: body, a, h, hb => AccOk.foldl body _ (h.push (hb i (by simp))) (fun j hj => hb j (by simp [hj]))
+
+theorem AccOk.finish {a : BracketedAcc} (h : AccOk t a) : AOk t a.finish := by
+  obtain ⟨h1, h2⟩ := h
+  unfold BracketedAcc.finish
+  cases hs : a.segmentOff with
+  | none => exact h1
+  | some o =>
+    apply AOk.append h1
+    intro y hy
+    simp only [List.mem_singleton] at hy
+    subst hy
+    exact h2 o hs
+
+theorem bracketedString_bd : Bd t bracketedString (AOk t) := by
+  unfold bracketedString
+  refine Bd.bind getPos_bd fun off hoff => ?_
+  refine Bd.bind (lit_bd _) fun _ _ => ?_
+  refine Bd.bind (many_bd bracketedItem_bd) fun body hbody => ?_
+  refine Bd.bind (lit_bd _) fun _ _ => ?_
+  refine Bd.pure (AccOk.finish (AccOk.foldl body _ ⟨?_, ?_⟩ hbody))
+  · intro y hy; cases hy
+  · intro o ho
+    simp only [Option.some.injEq] at ho
+    subst ho; exact hoff
+
+theorem stringF_bd (static : Bool) : ∀ fuel, Bd t (stringF static fuel) (AOk t)
+  | 0 => Bd.fail
+  | fuel + 1 => by
+    unfold stringF
+    refine Bd.bind (Q1 := AOk t) ?_ fun first hfirst => ?_
+    · refine Bd.orElse nakedString_bd (Bd.orElse (quotedString_bd _) (Bd.orElse (quotedString_bd _) ?_))
+      cases static
+      · exact bracketedString_bd
+      · exact Bd.fail
+    refine Bd.bind (opt_bd (Q := AOk t) ?_) fun rest hrest => ?_
+    · refine Bd.bind getPos_bd fun off hoff => ?_
+      refine Bd.bind (textOf_bd ohsp_bd) fun space _ => ?_
+      refine Bd.bind (stringF_bd static fuel) fun more hmore => ?_
+      refine Bd.pure ?_
+      split
+      · exact hmore
+      · intro y hy
+        simp only [List.mem_cons] at hy
+        rcases hy with rfl | hy
+        · exact hoff
+        · exact hmore y hy
+    · refine Bd.pure (AOk.append hfirst ?_)
+      cases rest with
+      | none => intro y hy; cases hy
+      | some r => exact hrest r rfl
+
+theorem string_bd (static : Bool) : Bd t (string static) (AOk t) :=
+  Bd.bind remaining_bd fun _ _ => stringF_bd static _
+
+theorem preposition_bd : Bd t preposition T := by
+  unfold preposition
+  refine Bd.bind (ciWord_bd _) fun _ _ => ?_
+  refine Bd.orElse ?_ wordBoundary_bd
+  exact Bd.bind hsp_bd fun _ _ => Bd.bind (ciWord_bd _) fun _ _ => wordBoundary_bd
+
+theorem hspPreposition_bd : Bd t hspPreposition T :=
+  Bd.orElse (textOf_bd (Bd.bind hsp_bd fun _ _ => preposition_bd)) (Bd.pure trivial)
+
+theorem remainder_bd : Bd t remainder T := by
+  unfold remainder
+  refine Bd.orElse ?_ (Bd.orElse ?_ (Bd.orElse ?_ ?_))
+  · exact Bd.bind (ciWord_bd _) fun _ _ => wordBoundary_bd
+  · exact Bd.bind (ciWord_bd _) fun _ _ => wordBoundary_bd
+  · exact Bd.bind (ciWord_bd _) fun _ _ => wordBoundary_bd
+  · exact Bd.bind (ciWord_bd _) fun _ _ => Bd.bind ohsp_bd fun _ _ => Bd.bind (ciWord_bd _) fun _ _ => wordBoundary_bd
+
+theorem unitPattern_bd : ∀ ws : List Str, Bd t (unitPattern ws) T
+  | [] => wordBoundary_bd
+  | [w] => Bd.bind (ciWord_bd _) fun _ _ => wordBoundary_bd
+  | w :: w' :: ws => by
+    unfold unitPattern
+    exact Bd.bind (ciWord_bd _) fun _ _ => Bd.bind sp_bd fun _ _ => unitPattern_bd (w' :: ws)
+
+theorem firstOf_bd : ∀ ps : List (P Unit), (∀ p ∈ ps, Bd t p T) → Bd t (firstOf ps) T
+  | [], _ => Bd.fail
+  | p :: ps, h => Bd.orElse (h p (by simp)) (firstOf_bd ps fun q hq => h q (by simp [hq]))
+
+theorem knownUnit_bd : Bd t knownUnit T := by
+  apply firstOf_bd
+  intro p hp
+  simp only [List.mem_map] at hp
+  obtain ⟨ws, _, rfl⟩ := hp
+  exact unitPattern_bd ws
+
+theorem proportion_bd : Bd t proportion (fun a => AAmount.offset a ≤ t.size) := by
+  unfold proportion
+  refine Bd.orElse ?_ ?_
+  · refine Bd.bind getPos_bd fun off hoff => ?_
+    refine Bd.bind (textOf_bd remainder_bd) fun wording _ => ?_
+    exact Bd.bind hspPreposition_bd fun prep _ => Bd.pure hoff
+  · refine Bd.bind number_bd fun x hx => ?_
+    obtain ⟨off, v⟩ := x
+    refine Bd.orElse ?_ (Bd.orElse ?_ ?_)
+    · exact Bd.bind (textOf_bd (Bd.bind hsp_bd fun _ _ => preposition_bd)) fun prep _ => Bd.pure hx
+    · refine Bd.bind (textOf_bd ?_) fun prep _ => Bd.pure hx
+      exact Bd.bind ohsp_bd fun _ _ => Bd.bind (lit_bd _) fun _ _ => Bd.bind hspPreposition_bd fun _ _ => Bd.pure trivial
+    · refine Bd.bind (textOf_bd ?_) fun prep _ => Bd.pure hx
+      exact Bd.bind ohsp_bd fun _ _ => lit_bd _
+
+theorem explicitQuantity_bd : Bd t explicitQuantity (fun a => AAmount.offset a ≤ t.size) := by
+  unfold explicitQuantity
+  refine Bd.bind getPos_bd fun off hoff => ?_
+  refine Bd.bind (lit_bd _) fun _ _ => ?_
+  refine Bd.bind ohsp_bd fun _ _ => ?_
+  refine Bd.bind number_bd fun x _ => ?_
+  obtain ⟨_, v⟩ := x
+  refine Bd.bind (opt_bd (Q := T) ?_) fun unit _ => ?_
+  · exact Bd.bind (textOf_bd ohsp_bd) fun _ _ => Bd.bind (string_bd _) fun _ _ => Bd.pure trivial
+  refine Bd.bind ohsp_bd fun _ _ => ?_
+  refine Bd.bind (lit_bd _) fun _ _ => ?_
+  exact Bd.bind hspPreposition_bd fun prep _ => Bd.pure hoff
+
+theorem implicitQuantity_bd : Bd t implicitQuantity (fun a => AAmount.offset a ≤ t.size) := by
+  unfold implicitQuantity
+  refine Bd.bind number_bd fun x hx => ?_
+  obtain ⟨off, v⟩ := x
+  refine Bd.bind (opt_bd (Q := T) ?_) fun unit _ => ?_
+  · refine Bd.bind (textOf_bd ohsp_bd) fun _ _ => ?_
+    refine Bd.bind getPos_bd fun _ _ => ?_
+    refine Bd.bind (textOf_bd knownUnit_bd) fun _ _ => ?_
+    exact Bd.bind hspPreposition_bd fun _ _ => Bd.pure trivial
+  · cases unit with
+    | none => exact Bd.pure hx
+    | some u =>
+      obtain ⟨spacing, u', prep⟩ := u
+      exact Bd.pure hx
+
+/-- the proportions of an expression are written in the text -/
+def EOk (t : Array Char) (e : AExpr) : Prop := ∀ off ∈ e.propOffsets, off ≤ t.size
+
+theorem reference_bd : Bd t reference (EOk t) := by
+  unfold reference
+  refine Bd.bind (opt_bd (Q := fun a => AAmount.offset a ≤ t.size) ?_) fun amount hamount => ?_
+  · refine Bd.bind (Bd.orElse proportion_bd (Bd.orElse explicitQuantity_bd implicitQuantity_bd)) fun a ha => ?_
+    exact Bd.bind ohsp_bd fun _ _ => Bd.pure ha
+  refine Bd.bind (string_bd _) fun name _ => Bd.pure ?_
+  intro off hoff
+  cases amount with
+  | none => simp [AExpr.propOffsets] at hoff
+  | some a =>
+    have := hamount a rfl
+    cases a with
+    | qty => simp [AExpr.propOffsets] at hoff
+    | prop o v pc w p =>
+      simp only [AExpr.propOffsets, List.mem_singleton] at hoff
+      subst hoff
+      exact this
+
+theorem EOk.list {es : List AExpr} (h : ∀ e ∈ es, EOk t e) : ∀ off ∈ AExpr.propOffsetsList es, off ≤ t.size := by
+  induction es with
+  | nil => intro off hoff; simp [AExpr.propOffsetsList] at hoff
+  | cons e es ih =>
+    intro off hoff
+    simp only [AExpr.propOffsetsList, List.mem_append] at hoff
+    rcases hoff with hoff | hoff
+    · exact h e (by simp) off hoff
+    · exact ih (fun e' he' => h e' (by simp [he'])) off hoff
+
+theorem step_bd {e : P AExpr} (h : Bd t e (EOk t)) : Bd t (step e) (EOk t) := by
+  unfold step
+  refine Bd.bind (string_bd _) fun name _ => ?_
+  refine Bd.bind ohsp_bd fun _ _ => ?_
+  refine Bd.bind (lit_bd _) fun _ _ => ?_
+  refine Bd.bind osp_bd fun _ _ => ?_
+  refine Bd.bind h fun first hfirst => ?_
+  refine Bd.bind (many_bd (Q := EOk t) ?_) fun rest hrest => ?_
+  · exact Bd.bind osp_bd fun _ _ => Bd.bind (lit_bd _) fun _ _ => Bd.bind osp_bd fun _ _ => h
+  refine Bd.bind (opt_bd (Q := T) ?_) fun _ _ => ?_
+  · exact Bd.bind osp_bd fun _ _ => lit_bd _
+  refine Bd.bind osp_bd fun _ _ => ?_
+  refine Bd.bind (lit_bd _) fun _ _ => Bd.pure ?_
+  intro off hoff
+  simp only [AExpr.propOffsets] at hoff
+  refine EOk.list (es := first :: rest) ?_ off hoff
+  intro e' he'
+  simp only [List.mem_cons] at he'
+  rcases he' with rfl | he'
+  · exact hfirst
+  · exact hrest e' he'
+
+theorem ltrShorthand_bd {e : P AExpr} (h : Bd t e (EOk t)) : Bd t (ltrShorthand e) (EOk t) := by
+  unfold ltrShorthand
+  refine Bd.bind h fun first hfirst => ?_
+  refine Bd.bind (many_bd (Q := T) ?_) fun actions hact => Bd.pure ?_
+  · exact Bd.bind ohsp_bd fun _ _ => Bd.bind (lit_bd _) fun _ _ => Bd.bind ohsp_bd fun _ _ =>
+      (string_bd _).mono fun _ _ => trivial
+  clear h hact
+  induction actions generalizing first with
+  | nil => exact hfirst
+  | cons a as ih =>
+    apply ih
+    intro off hoff
+    simp only [AExpr.propOffsets, AExpr.propOffsetsList, List.append_nil] at hoff
+    exact hfirst off hoff
+
+theorem expr_bd : ∀ fuel, Bd t (expr fuel) (EOk t)
+  | 0 => Bd.fail
+  | fuel + 1 => by
+    unfold expr
+    refine Bd.orElse (step_bd (expr_bd fuel)) (Bd.orElse reference_bd ?_)
+    refine Bd.bind (lit_bd _) fun _ _ => ?_
+    refine Bd.bind osp_bd fun _ _ => ?_
+    refine Bd.bind (ltrShorthand_bd (expr_bd fuel)) fun e he => ?_
+    refine Bd.bind osp_bd fun _ _ => ?_
+    exact Bd.bind (lit_bd _) fun _ _ => Bd.pure he
+
+theorem eol_bd : Bd t eol T := by
+  unfold eol
+  refine Bd.orElse ?_ ?_
+  · exact Bd.bind ohsp_bd fun _ _ => Bd.bind (sat_bd _) fun _ _ => osp_bd
+  · exact Bd.bind ohsp_bd fun _ _ => eof_bd
+
+theorem outputList_bd : Bd t outputList (fun l => ∀ a ∈ l, AOk t a) := by
+  unfold outputList
+  refine Bd.bind (string_bd _) fun first hfirst => ?_
+  refine Bd.bind (many_bd (Q := AOk t) ?_) fun rest hrest => Bd.pure ?_
+  · exact Bd.bind ohsp_bd fun _ _ => Bd.bind (lit_bd _) fun _ _ => Bd.bind ohsp_bd fun _ _ => string_bd _
+  intro a ha
+  simp only [List.mem_cons] at ha
+  rcases ha with rfl | ha
+  · exact hfirst
+  · exact hrest a ha
+
+theorem assign_bd : Bd t assign T := by
+  unfold assign
+  refine Bd.orElse ?_ ?_
+  · exact Bd.bind (lit_bd _) fun _ _ => Bd.bind (lit_bd _) fun _ _ => Bd.pure trivial
+  · exact Bd.bind (lit_bd _) fun _ _ => Bd.pure trivial
+
+/-- every offset a statement can be rejected at lies in the text -/
+def StOk (t : Array Char) (st : AStmt) : Prop := ∀ off ∈ st.errOffsets, off ≤ t.size
+
+theorem stmt_bd : Bd t stmt (StOk t) := by
+  unfold stmt
+  refine Bd.bind (opt_bd (Q := fun x : List AString × Bool => ∀ a ∈ x.1, AOk t a) ?_) fun target htarget => ?_
+  · refine Bd.bind outputList_bd fun outputs houtputs => ?_
+    refine Bd.bind ohsp_bd fun _ _ => ?_
+    refine Bd.bind assign_bd fun named _ => ?_
+    exact Bd.bind ohsp_bd fun _ _ => Bd.pure houtputs
+  refine Bd.bind remaining_bd fun fuel _ => ?_
+  refine Bd.bind (ltrShorthand_bd (expr_bd _)) fun e he => ?_
+  refine Bd.bind eol_bd fun _ _ => Bd.pure ?_
+  intro off hoff
+  simp only [AStmt.errOffsets, List.mem_append, List.mem_map] at hoff
+  rcases hoff with hoff | ⟨a, ha, rfl⟩
+  · exact he off hoff
+  · cases target with
+    | none => simp at ha
+    | some x =>
+      simp only [Option.map_some, Option.getD_some] at ha
+      exact (htarget x rfl a ha).offset
+
+theorem recipe_bd : Bd t recipe (fun l => ∀ st ∈ l, StOk t st) := by
+  unfold recipe
+  refine Bd.bind osp_bd fun _ _ => ?_
+  refine Bd.bind stmt_bd fun first hfirst => ?_
+  refine Bd.bind (many_bd stmt_bd) fun rest hrest => ?_
+  refine Bd.bind eof_bd fun _ _ => Bd.pure ?_
+  intro st hst
+  simp only [List.mem_cons] at hst
+  rcases hst with rfl | hst
+  · exact hfirst
+  · exact hrest st hst
+
+end RG.Parser.PosBound
+
+namespace RG
+/-- **every position reported for a statement of a parsed text lies in the text** -/
+theorem parse_offsets_in_source (s : Str) (stmts : List AStmt) (h : parse s = .ok stmts) :
+    ∀ st ∈ stmts, ∀ off ∈ st.errOffsets, off ≤ s.length := by
+  unfold parse at h
+  cases hr : Parser.recipe s.toArray ⟨0, false⟩ with
+  | none => rw [hr] at h; cases h
+  | some r =>
+    obtain ⟨l, s'⟩ := r
+    rw [hr] at h
+    have := (Parser.PosBound.recipe_bd (t := s.toArray) ⟨0, false⟩ l s' (Nat.zero_le _) hr).2
+    cases h
+    simpa [Parser.PosBound.StOk] using this
+end RG
+
+namespace RG
+open C01
 
 -- ================================================================ Part B: the `unwrap` flags of the table
 mutual
